@@ -127,6 +127,8 @@ class Universe:
         self.local_types = {}   # 'Class.method' -> {local name: type tag}
         self.method_hooks = {}  # 'Class.method' -> fn(it, self, args, kw, st, fr)
         self.extra_subclasses = {}   # external class name -> [subclass names]
+        self.records = {}    # pseudo class -> [(z3 accessor, tag)]: elements
+        #                      of that class are immutable tuples
         self.prop_hooks = {}    # 'PseudoClass.attr' -> property get/set hook
         self._iconsts = {}
 
@@ -270,6 +272,16 @@ class Interp(BuiltinsMixin, StmtMixin, DictMixin):
                                          self.entry_frame), self.entry_state)
                       for c in classes]
             goal = z3.Or(inside + [goal])
+        here = getattr(self.uni, "kf_classes_here", {}).get(name)
+        if here:
+            # class stated over the variables in scope at the obligation
+            sub = Frame(fr.func, fr.cls, fr.contract, env=dict(fr.env),
+                        spec=True)
+            for a in ("old", "result", "entry_state", "head_state"):
+                setattr(sub, a, getattr(fr, a, None))
+            inside = [self.truth(self.ev(parse_expr(c), st, sub), st)
+                      for c in here]
+            goal = z3.Or(inside + [goal])
         ob = Obligation(fr.func, kind, label, self.uni.axioms + st.pc, goal,
                         self.dec.trace, note)
         ob.entry = dict(getattr(self, "entry_z3", {}))
@@ -338,6 +350,9 @@ class Interp(BuiltinsMixin, StmtMixin, DictMixin):
         et = v.elem
         if base_tag(et) != "ref":
             return wrap(e)
+        rec = self.uni.records.get(et)
+        if rec:
+            return VTuple([self.mkval(f(e), t) for f, t in rec])
         return self.mkref(e, et)
 
     def heap_closure(self, st):
